@@ -45,7 +45,7 @@ RULE = ("K-attr: 11 real objects (one per isinstance branch) x (dir(obj) + UNSAF
 
 # functions that are NOT translated (Gen_sbx_src.v covers is_internal_attribute, is_safe_attribute, getattr,
 # getitem): their canonical text stays pinned
-SHAPES = ("SandboxedEnvironment.unsafe_undefined", "SandboxedEnvironment.wrap_str_format", "SandboxedFormatter.get_field")
+SHAPES = ("SandboxedEnvironment.wrap_str_format",)
 
 SYN_NAMES = ["pub", "x1", "_priv", "__zz", "__zz__", "_", "mro", "gi_frame", "gi_code", "cr_frame", "ag_frame", "format",
              "format_map", "f_globals"]
@@ -96,12 +96,11 @@ def regenerate(ctx):
         ctx.broken.append("T1: the UNSAFE_* objects of the imported module differ from the source text")
     bad = [q for q in sbx_tables.shape_mismatches(facts) if q in SHAPES]
     try:
-        bad += sbx_tables.nodes_shape_mismatches(lib.SRC)
-        bad += sbx_tables.compiler_shape_mismatches(lib.SRC, ("CodeGenerator.visit_Getattr", "CodeGenerator.visit_Getitem"))
+        bad += sbx_tables.filters_shape_mismatches(lib.SRC)
     except sbx_tables.TranslatorError as e:
         bad.append(str(e))
     ctx.obligations += 1
-    ctx.obligation_names.append("shape of unsafe_undefined / wrap_str_format / get_field / compiler.visit_Getattr / visit_Getitem / nodes.Getattr.as_const / Getitem.as_const")
+    ctx.obligation_names.append("text pins of the two untranslated functions: wrap_str_format (closure construction), make_multi_attrgetter (list mutation)")
     if bad:
         ctx.broken.append("T1: source shape differs from the modelled one: " + ", ".join(bad))
         ctx.extra["shape_changed"] = {q: facts["shapes"].get(q, "(see compiler.py / nodes.py)") for q in bad}
@@ -190,6 +189,35 @@ def k_rt_single(ctx, facts, env):
         if ra is None or ri is None:
             continue
         cases.append((kind, name, ra, ri, o, getattr(o, name, None) if ra != "none" else None, iv))
+    # subscript keys that are instances of a str subclass: content "pubkey", str() = the name under test
+    subcases = []
+    for kind, name, astat in itertools.product(("other", "type", "function"), SYN_NAMES, ("none", "plain", "fmt")):
+        av = ob.Val("ATTR")
+        o = ob.make_obj(kind, name, astat, "0", av, None)
+        if o is None:
+            continue
+        ra = ob.attrstat(o, name)
+        if ra is None or ob.itemstat(o, "pubkey") != "0":
+            continue
+        subcases.append((kind, name, ra, o, getattr(o, name, None) if ra != "none" else None))
+    sub_out = ctx.driver("sbx", [tables_line(facts["unsafe"])] + [f"gs {k} {hexname('pubkey')} {hexname(n)} {ra} 0" for k, n, ra, _, _ in subcases])[1:]
+    for (kind, name, ra, o, av), model in zip(subcases, sub_out):
+        r, exc = ob.call_classified(lambda: env.getitem(o, ob.StrSub("pubkey", name)))
+        real = exc or ob.classify(r, av, None)
+        if real == "handout":
+            real = "value"
+        case = {"kind": "access", "fn": "gi-strsubclass", "object": kind, "name": name, "attr": ra, "item": "0"}
+        unsafe_name = name.startswith("_") or bool(sb.is_internal_attribute(o, name))
+        ctx.case(sample=case if unsafe_name and ra == "plain" else None, key=("rt-sub", kind, name, ra) if unsafe_name and ra != "none" else None)
+        ctx.count("k_rt_gi_strsubclass")
+        of = api_oracle(name, real) or (f"the value of the internal attribute {name!r} was handed out" if real in ("value", "format") and unsafe_name else None)
+        if of:
+            reject_once(ctx, case, f"getitem with a str-subclass key whose str() is {name!r} on a {kind} object: {of}", f"C17:access:gi-strsubclass:{ra}:{name}")
+        elif real != model:
+            ctx.model_mismatch("K-rt sandbox_getitem (str-subclass key)", case, model, real, None)
+        else:
+            ctx.validated()
+
     objs, close = ob.real_objects()
     try:
         for kind, o in objs.items():
@@ -588,7 +616,9 @@ def run(ctx):
     ctx.proof("C17")
     # T5: the current source of is_internal_attribute, is_safe_attribute, getattr and getitem, interpreted
     # in Coq, equals the model functions for every table, object tree and name / key
-    sbx_src_tie.source_equations(ctx, ("internal", "safe", "access"))
+    sbx_src_tie.source_equations_paths(ctx)
+    # regenerated routing decision table of the compiler's visitors (what C17_codegen_no_raw_attr relies on)
+    sbx_src_tie.routing_table(ctx)
     facts = regenerate(ctx)
     env = SandboxedEnvironment()
     if facts is not None:
@@ -643,6 +673,7 @@ def replay(ctx, data):
         if o is None:
             o = ob.real_objects()[0][case["object"]]
         fn = {"ga": lambda: env.getattr(o, case["name"]), "gi": lambda: env.getitem(o, case["name"]),
+              "gi-strsubclass": lambda: env.getitem(o, ob.StrSub("pubkey", case["name"])),
               "da": lambda: jf.do_attr(env, o, case["name"])}[case["fn"]]
         r, exc = ob.call_classified(fn)
         real = exc or ob.classify(r, getattr(o, case["name"], None), iv)
